@@ -54,8 +54,8 @@ Qed.
 Lemma flush_wrapping_sames : sames flush_wrapping.
 Proof.
   intros s s' H. unfold flush_wrapping in H. destruct (wrapping s) as [w|].
-  - destruct (take_trailing_fragments w) as [w1 frags]. bind_inv H ls Hls. ok_inv H.
-    destruct (extend_lines_same (map RText ls) (set_wrapping s None)) as [A B].
+  - destruct (take_trailing_fragments w) as [w1 frags]. bind_inv H lm Hlm. ok_inv H.
+    destruct (extend_lines_same (map RText (fst lm)) (set_wrapping s None)) as [A B].
     split; sprj; [rewrite A|rewrite B]; reflexivity.
   - ok_inv H. apply same_refl.
 Qed.
